@@ -14,7 +14,7 @@ from harness.common import to_lit
 from harness.encode import enc_val, enc_rule, Unencodable, V
 from harness.props.c01 import outcome_of
 
-KEYS = ["a", "b", "x<y", "k&r", "q\"t", "c d", 1, 2, "0"]
+KEYS = ["a", "b", "x<y", "k&r", "q\"t", "c d", 1, 2, "0", "", 0.0, 2.0, 0, "A", " a", "value", "ab", 1.5]
 TEXTS = ["plain text", "a < b & c > d", "use `code` here", "`x<y` and \"quotes\"", "it's <b>bold</b>", "tick ` alone",
          "5 > 3 && 2 < 4", "&amp; already", "<script>alert(1)</script>", "`a` then `b&c`"]
 
@@ -121,7 +121,10 @@ def tree_event(i, schema, from_idx):
         last = pth[-1] if len(pth) else None
         key = enc_val(last) if isinstance(last, (str, int)) and not isinstance(last, bool) else V("none")
         par = it["parent"]
+        import valida.datapath as _dp
         nodes.append({"ri": ri, "parent": par, "plen": len(it["path_str"]), "key": key,
+                      "path": [{"prim": not isinstance(x, _dp.ContainerValue),
+                                "v": enc_val(x) if not isinstance(x, _dp.ContainerValue) else V("none")} for x in pth],
                       "has_required": "required" in it, "required": bool(it.get("required")),
                       "pstr_prefix_ok": par < 0 or tuple(flat[par]["path_str"]) == tuple(it["path_str"][:-1]),
                       "cond_is_rule": ri > 0 and it.get("condition") is rules[ri - 1].condition,
